@@ -347,6 +347,11 @@ def C(v):
     return ('C', v)
 
 
+def L(label):
+    """marks an atom that is itself an array along a new axis (logspace, arange, compress ...)"""
+    return ('L', label)
+
+
 def sym(name, *labels):
     return Poly.atom(('sym', name, tuple(labels)))
 
@@ -568,6 +573,8 @@ def atom_labels(a):
                 s |= poly_labels(Poly.from_key(x[1]))
             elif x[0] == 'B':
                 s |= poly_labels(Poly.from_key(x[2])) - {x[1]}
+            elif x[0] == 'L':
+                s.add(x[1])          # the atom is an array along this (new) axis
         return s
     return set()
 
@@ -850,6 +857,8 @@ def show_atom(a, limit=2000):
                 args.append(show(Poly.from_key(x[1]), limit))
             elif x[0] == 'B':
                 args.append('%s->%s' % (x[1], show(Poly.from_key(x[2]), limit)))
+            elif x[0] == 'L':
+                args.append('[%s]' % x[1])
             else:
                 args.append(str(x[1]))
         return '%s(%s)' % (a[1], ', '.join(args))
@@ -877,5 +886,7 @@ def all_labels(p):
                         walk(Poly.from_key(x[1]))
                     elif x[0] == 'B':
                         out.add(x[1]); walk(Poly.from_key(x[2]))
+                    elif x[0] == 'L':
+                        out.add(x[1])
     walk(p)
     return out
